@@ -55,6 +55,9 @@ def run(c):
         en = sorted(enabled)
         full = len(en) == len([x for x in UNIVERSE if drv.SIG_FAMILY[x] == fam])
         core = blob == sign and (full or sign not in en or decl not in en)
+        # relabelled signatures whose blob names exactly the declared algorithm while key / hash are another one: only the
+        # key class's own check can refuse them
+        core = core or (blob == decl and sign != decl and full and exch == "initial" and probe == "none" and banner == "paramiko")
         if exch != "initial":      # re-exchanges need a finished first exchange: the negotiated algorithm is enabled
             core = core and decl in en
         if banner != "paramiko":   # client identification strings: fixed stratum = a request naming one RSA algorithm
@@ -141,6 +144,6 @@ def run(c):
               "(family names + one foreign name) x enabled set (%s); %s; distinct = distinct table row"
               % ("all subsets of the family's names" if not q else "full set and full minus one name",
                  "every row replayed (server rows also after every unsigned probe, client rows also in client- and server-initiated re-exchanges)" if not q else
-                 "replayed: every genuine-signature row with the full set or with the signing / declared algorithm disabled, plus 15 seeded other rows; server-side RSA requests naming one algorithm and signed with another also under every client identification string class (paramiko, OpenSSH 7.2/7.4/7.7/8.9, PuTTY); client rows of that kind with the negotiated algorithm enabled also in both kinds of re-exchange; server side also probe-then-sign sequences: every such row whose declared algorithm is disabled after every answered probe, a seeded third of the others"))
+                 "replayed: every genuine-signature row with the full set or with the signing / declared algorithm disabled, every row whose blob names the declared algorithm over a signature made with another one (full set), plus 15 seeded other rows; server-side RSA requests naming one algorithm and signed with another also under every client identification string class (paramiko, OpenSSH 7.2/7.4/7.7/8.9, PuTTY); client rows of that kind with the negotiated algorithm enabled also in both kinds of re-exchange; server side also probe-then-sign sequences: every such row whose declared algorithm is disabled after every answered probe, a seeded third of the others"))
     c.assumptions = ["the signature is genuine for the algorithm it was made with (bundled test keys); only the declared name, the blob name and the enabled set vary",
                      "client side: the harness server offers exactly one host-key algorithm so that it is the one negotiated"]
